@@ -114,9 +114,40 @@ func runCheck(repo, prop, tier string) int {
 	var harness []string
 	notes := map[string]bool{}
 	nvc := 0
-	for _, key := range w.cons.FuncOrd {
+	keys := append([]string{}, w.cons.FuncOrd...)
+	if prop == "C12" {
+		// the crash-freedom sweep covers every function of the core packages,
+		// with or without a contract
+		have := map[string]bool{}
+		for _, k := range keys {
+			have[k] = true
+		}
+		for _, p := range []string{"rules", "filterutil", "lookup", "filterlist", ""} {
+			path := modPath
+			if p != "" {
+				path += "/" + p
+			}
+			for _, fn := range w.allFuncs(path) {
+				if fn.Parent() != nil || fn.Name() == "init" || strings.HasPrefix(fn.Name(), "init#") {
+					continue
+				}
+				if w.contractFor(fn) == nil && !have[funcKey(fn)] {
+					keys = append(keys, funcKey(fn))
+					have[funcKey(fn)] = true
+				}
+			}
+		}
+	}
+	for _, key := range keys {
 		fc := w.cons.Funcs[key]
-		if fc.Extern || fc.Trusted || !fc.mentions(prop) {
+		if fc == nil {
+			fc = &FuncContract{Key: key, Opts: map[string]string{}}
+		} else if prop == "C12" && !fc.Extern && !fc.Trusted && fc.Opts["interface"] == "" {
+			// included below: default safety obligations carry C12
+		} else if fc.Extern || fc.Trusted || !fc.mentions(prop) {
+			continue
+		}
+		if fc.Extern || fc.Trusted {
 			continue
 		}
 		if strings.Contains(key, "::") && !strings.HasPrefix(key, modPath) {
